@@ -3,9 +3,16 @@ import re
 from . import common as C
 
 
-def run_stream(mode, seed, n):
+def run_stream(mode, seed, n, prop=None):
     rc, out = C.run_harness([mode, str(seed), str(n)])
     if rc != 0:
+        if prop is not None and (rc < 0 or rc >= 128 or "panic" in out[-4000:]):
+            # the process running the real client / codec died (abort, signal, non-unwinding panic): the run itself is
+            # the failing input -- the same command reproduces it
+            lines = [l for l in out.split("\n") if l]
+            raise C.Violation(prop, "the implementation brought down the process that was running it (abort, fatal signal or non-unwinding panic)",
+                              "harness %s %d %d ended with status %s after %d scripts\nlast output: %s\nreplay: harness %s %d %d" % (
+                                  mode, seed, n, rc, len(lines), out[-600:], mode, seed, n), True)
         raise RuntimeError("harness %s failed: %s" % (mode, out[-2000:]))
     rows = []
     for l in out.split("\n"):
